@@ -84,6 +84,11 @@ def shapes(tier):
                 continue   # N=4 with a symbolic permutation: thorough only (path count)
             out.append({"mode": "file", "N": N, "n_lin": nlin, "kmax": kmax, "n_batches": nb, "randomize": rnd,
                         "n_prior": nprior, "src": src, "pool": 3 if nb is None else 1})
+    # -inf likelihood values next to at least one finite value (rows identified by position: no shuffle)
+    for N, ninf in ((2, [0]), (3, [1]), (3, [0, 2]), (4, [0, 3])):
+        out.append({"mode": "inmem", "N": N, "n_lin": 1, "kmax": "sym", "neginf": ninf})
+        out.append({"mode": "file", "N": N, "n_lin": 1, "kmax": "none", "n_batches": 2, "randomize": False, "n_prior": None,
+                    "src": "filename" if N % 2 else "object", "pool": 1, "neginf": ninf})
     for N in ([2, 3] if tier == "quick" else [2, 3, 4]):
         out.append({"mode": "file", "N": N, "n_lin": 1, "kmax": "none", "n_batches": None, "randomize": False,
                     "n_prior": N + 1, "src": "filename", "pool": 1})
@@ -102,6 +107,9 @@ def run_harness(S, shape, logprobs=False, all_logprobs=False, fault_at=None):
     w = S.w
     N, nlin = shape["N"], shape["n_lin"]
     lib, lnp = S.library(N, with_lnp=True)
+    groupa.NEGINF_P.clear()
+    for i in shape.get("neginf", []):
+        groupa.NEGINF_P.add("lib_%d_P" % i)
     kmax = None
     if shape["kmax"] == "sym":
         kmax = core.integer("kmax")
@@ -223,11 +231,11 @@ def describe_factory(S, info, rows, lls, vs, idx):
         mv = lambda x: core.model_value(m, x)
         d = {"lib": [[str(mv(c)) for c in r] for r in info["lib"]],
              "lnp": [str(mv(x)) for x in info["lnp"]],
-             "ll_eval": [str(mv(l)) for l in lls],
+             "ll_eval": ["-inf" if isinstance(l, symnp.NonFinite) else str(mv(l)) for l in lls],
              "v": [str(mv(v)) for v in vs],
              "idx": [int(mv(i)) if core.is_sym(i) else int(i) for i in idx],
              "kmax": int(mv(info["kmax"])) if info["kmax"] is not None else None,
-             "ll_lib": [str(mv(groupa.ll_of(r))) for r in info["lib"]]}
+             "ll_lib": ["-inf" if isinstance(groupa.ll_of(r), symnp.NonFinite) else str(mv(groupa.ll_of(r))) for r in info["lib"]]}
         return d
     return describe
 
@@ -259,12 +267,21 @@ def run_shape(shape, tier, focus="C02"):
             rows, lps, lls, vs, idx, problems = eval_rows(S, info)
             desc = describe_factory(S, info, rows, lls, vs, idx)
             acc, kept, ranks = kept_spec(lls, vs, info["kmax"])
+            # well-scaled counterexample models (the replay is in floating point: exp(-2447) would underflow)
+            pref = []
+            for l in lls:
+                if not isinstance(l, symnp.NonFinite):
+                    pref += [core.lift(l) >= -6, core.lift(l) <= 2]
+            for v in vs:
+                pref += [core.lift(v) >= -4, core.lift(v) <= z3.RealVal("-1/50")]
+            for i, r_ in enumerate(info["lib"]):
+                pref += [core.lift(r_[0]) == 2 + i] + [z3.And(core.lift(c) >= 0, core.lift(c) <= 5) for c in r_[1:]]
             if focus == "C02":
                 sink.check(path, "rng_protocol", core.SB(z3.BoolVal(not problems)), site=shape["mode"], describe=desc)
-                sink.check(path, "rows", core.SB(claims_rows(info, rows, kept, ranks)), site=shape["mode"], describe=desc)
+                sink.check(path, "rows", core.SB(claims_rows(info, rows, kept, ranks)), site=shape["mode"], describe=desc, prefer=pref)
                 sink.check(path, "user_file_untouched", core.SB(z3.BoolVal(_user_file_ok(info))), site=shape["mode"], describe=desc)
             else:
-                _c06_claims(sink, path, shape, info, rows, lps, lls, kept, ranks, desc, logprobs, all_lp)
+                _c06_claims(sink, path, shape, info, rows, lps, lls, kept, ranks, desc, logprobs, all_lp, pref)
             if ex.n_paths % 3 == 1:
                 add_witness(res, path, desc, site=shape["mode"])
             r, _, _ = path.check(core.SB(z3.BoolVal(False)))
@@ -294,7 +311,7 @@ def _raised(sink, path, shape, S):
                describe=lambda m: {"raised": repr(e)[:300]})
 
 
-def _c06_claims(sink, path, shape, info, rows, lps, lls, kept, ranks, desc, logprobs, all_lp):
+def _c06_claims(sink, path, shape, info, rows, lps, lls, kept, ranks, desc, logprobs, all_lp, pref=()):
     obs = info["obs"]
     nlin = info["n_lin"]
     eff = logprobs and info.get("logprobs_effective", True)
@@ -309,12 +326,12 @@ def _c06_claims(sink, path, shape, info, rows, lps, lls, kept, ranks, desc, logp
                 for g in range(m):
                     cl.append(z3.Implies(z3.And(kept[j], ranks[j] == g),
                                          z3.And(core.lift(obs["ln_likelihood"][g] == lls[j]), core.lift(obs["ln_prior"][g] == lps[j]))))
-            sink.check(path, "attached", core.SB(z3.And(cl)), site=shape["mode"], describe=desc)
+            sink.check(path, "attached", core.SB(z3.And(cl)), site=shape["mode"], describe=desc, prefer=pref)
     if all_lp:
         al = info["all_ll"]
         ok = isinstance(al, symnp.SymArray) and al.a.shape == (len(lls),)
         cl = z3.And([core.lift(al.a[j] == lls[j]) for j in range(len(lls))]) if ok else z3.BoolVal(False)
-        sink.check(path, "all_logprobs", core.SB(cl), site=shape["mode"], describe=desc)
+        sink.check(path, "all_logprobs", core.SB(cl), site=shape["mode"], describe=desc, prefer=pref)
 
 
 # ---------------------------------------------------------------------------------------------
@@ -357,8 +374,10 @@ def _replay_once(cand, focus, shift):
         return {"reproduced": False, "detail": "candidate without concrete input: %r" % (m,)}
     lib = np.array([[_f(c) for c in r] for r in m["lib"]], dtype=float)
     N = len(lib)
+    if len({tuple(r) for r in np.round(lib, 12)}) < N:
+        lib[:, 0] = lib[:, 0] + 1e-3 * np.arange(N)     # the likelihood is given per library row: keep the rows distinguishable
     # make rows distinguishable / valid where the model left them equal: only P must be unique for lookup
-    ll_lib = [_f(x) + shift for x in m["ll_lib"]]
+    ll_lib = [float("-inf") if x == "-inf" else _f(x) + shift for x in m["ll_lib"]]
     lnp = np.array([_f(x) for x in m["lnp"]])
     us = [math.exp(_f(v)) for v in m["v"]]
     idx = list(m["idx"])
@@ -492,7 +511,7 @@ def _replay_once(cand, focus, shift):
         useq = rng.u_served
 
         def expected(assign):
-            acc = [j for j in range(n_eval) if math.exp(ll_eval[j] - mx) > assign[j]]
+            acc = [j for j in range(n_eval) if (math.exp(ll_eval[j] - mx) if ll_eval[j] != float("-inf") else 0.0) > assign[j]]
             if kmax is not None:
                 acc = acc[:kmax]
             return acc
